@@ -14,6 +14,12 @@ verus! {
 /*@*/ #[verifier::external_body]
 /*@*/ pub broadcast proof fn axiom_cow_borrowed<'a, B: ?Sized + ToOwned>(b: &'a B)
 /*@*/     ensures #[trigger] cow_ref(&Cow::<'a, B>::Borrowed(b)) == b {}   // Cow::deref: `Borrowed(borrowed) => borrowed`
+/*@*/ /// the companion for an owned token vector (`Cow<'_, [T]>`, `<[T] as ToOwned>::Owned = Vec<T>`): Cow::deref is
+/*@*/ /// `Owned(ref owned) => owned.borrow()` and `<Vec<T> as Borrow<[T]>>::borrow` is `&self[..]`: the slice the Cow derefs to
+/*@*/ /// has the elements of the vector (stated on the views only; nothing is said about addresses or capacity)
+/*@*/ #[verifier::external_body]
+/*@*/ pub broadcast proof fn axiom_cow_owned_slice<'a, T: Clone>(v: Vec<T>)
+/*@*/     ensures (#[trigger] cow_ref(&Cow::<'a, [T]>::Owned(v)))@ == v@ {}
 
 /*@*/ // ---- the exact checker only looks at the item relation inside the box it was started on ----
 /*@*/ pub open spec fn cap_post_rel(rel: Rel, or: Range<usize>, nr: Range<usize>, ops: Seq<DiffOp>, strict: bool) -> bool {
